@@ -16,7 +16,7 @@ SeqsUpTo(V, n) == IF n = 0 THEN {<<>>}
                   ELSE LET S == SeqsUpTo(V, n - 1) IN S \cup {Append(s, v) : s \in {x \in S : Len(x) = n - 1}, v \in V}
 
 sS == <<115>>  tT == <<116>>  hH == <<104>>  gG == <<103>>  qQ == <<113>>  fF == <<102>>
-VocA == IF Mode = "pct" THEN {<<97>>, <<37, 50, 102>>, <<37, 52, 49, 66>>, DOTDOT} ELSE {<<97>>, <<98>>, <<>>, DOT, DOTDOT, <<99, 58, 100>>}
+VocA == IF Mode = "pct" THEN {<<97>>, <<37, 50, 102>>, <<37, 52, 49, 66>>, DOTDOT, <<233, 58, 98>>} ELSE {<<97>>, <<98>>, <<>>, DOT, DOTDOT, <<99, 58, 100>>}
 VocB == IF Mode = "pct" THEN {<<97>>, <<37, 50, 70>>, <<65, 37, 52, 50>>} ELSE {<<97>>, <<98>>, <<>>, DOTDOT}
 
 Good(P) == LET w == Recompose(P) IN InLang(FullTy(Fam), w) /\ Parts(w) = P
@@ -44,7 +44,17 @@ PickA == /\ mode = "rel" /\ a = NULL /\ a' \in UrisA /\ UNCHANGED <<b, mode>>
 PickP == mode = "start" /\ b' \in PathsP /\ a' = NULL /\ mode' = "path"
 PickV == /\ mode = "path" /\ a = NULL /\ a' \in PathsV /\ UNCHANGED <<b, mode>>
          /\ PrintT(ToJson([k |-> "suffix", fam |-> "both", what |-> "path", v |-> a', p |-> b]))
-Next == PickB \/ PickA \/ PickP \/ PickV
+\* deep directories: more than 16 levels to climb (and to descend)
+RECURSIVE Dirs(_)
+Dirs(n) == IF n = 0 THEN <<>> ELSE Append(Dirs(n - 1), <<100, 48 + (n % 10)>>)      \* d1 d2 ...
+Deep(n) == <<115, 58, 47, 47, 104>> \o Join(TRUE, Append(Dirs(n), <<102>>))          \* s://h/d1/.../dn/f
+DeepPairs == {<<Deep(0), Deep(17)>>, <<Deep(17), Deep(0)>>, <<Deep(16), Deep(33)>>, <<Deep(33), Deep(2)>>,
+              <<<<115, 58, 47, 47, 104, 47, 111>>, Deep(18)>>}
+PickDeep == /\ mode = "start" /\ Mode = "main"
+            /\ \E pr \in DeepPairs : a' = pr[1] /\ b' = pr[2] /\ mode' = "deep"
+                  /\ PrintT(ToJson([k |-> "rel", fam |-> "both", a |-> pr[1], b |-> pr[2]]))
+                  /\ PrintT(ToJson([k |-> "suffix", fam |-> "both", what |-> "ref", v |-> pr[1], p |-> pr[2]]))
+Next == PickB \/ PickA \/ PickP \/ PickV \/ PickDeep
 
 \* C15 is satisfiable: a itself always is an acceptable answer (a full URI is a reference that
 \* resolves to itself up to dot-segment removal)
